@@ -875,8 +875,9 @@ pub struct MatchCase {
     pub origin: &'static str,
 }
 
+/// D31 is repaired; its shape (a positional sub-pattern on a void payload) is always generated
 pub fn avoid_d31() -> bool {
-    std::env::var("VERIF_AVOID").map(|s| s.contains("D31")).unwrap_or(false)
+    false
 }
 
 /// hand-written regression shapes (defects found while building the model), then systematic arm
